@@ -23,6 +23,8 @@ def run(C, R):
         F = C.facts(cfg)
         E = C.engine(cfg)
         R.configs.append(cfg)
+        from common import wrapper_discipline
+        R.floor('C13.W wrapper-paths[%s]' % cfg, wrapper_discipline(C, R, cfg, ['channel::state_broadcast::ChannelState'], 'C13.W'), 2)
         F.adt(STATE)
         # R1
         nw = 0
